@@ -61,13 +61,15 @@ pub fn run(tier: &str, seed: u64, driver_path: &str) -> Report {
         check(&mut rep, &mut drv, "with_file_name", format!("prelude.with_file_name {} {}", h, hex(nm.as_bytes())), hex(pp.with_file_name(&nm).to_string_lossy().as_bytes()), dom && nm_ok);
         check(&mut rep, &mut drv, "working_file_path", format!("prelude.working_file_path {}", h), hex(sy::temp_file::working_file_path(pp).to_string_lossy().as_bytes()), dom);
         // strip_prefix: base = a prefix of the components, or another path
-        let base: String = if rng.chance(2, 3) { let cs: Vec<&str> = p.split('/').collect(); cs[..rng.below(cs.len() as u64 + 1) as usize].join("/") } else { path_text(&mut rng) };
+        // one case in six: a TEXTUAL prefix cut at an arbitrary byte (`ab/c` vs `a`) — where component-wise and textual tests part
+        let base: String = if rng.chance(1, 6) && !p.is_empty() { p[..rng.below(p.len() as u64 + 1) as usize].to_string() } else if rng.chance(2, 3) { let cs: Vec<&str> = p.split('/').collect(); cs[..rng.below(cs.len() as u64 + 1) as usize].join("/") } else { path_text(&mut rng) };
         let real = match pp.strip_prefix(Path::new(&base)) { Ok(r) => format!("ok:{}", hex(r.to_string_lossy().as_bytes())), Err(_) => "err".into() };
         check(&mut rep, &mut drv, "strip_prefix", format!("prelude.strip_prefix {} {}", h, hex(base.as_bytes())), real, dom && (base.is_empty() || in_domain(&base)));
         // component-wise `Path::starts_with` (the guard of repair 0e87354 and the exclusion of children rest on it), textual
         // `str::starts_with`, `str::ends_with('/')`
         let bdom = dom && (base.is_empty() || in_domain(&base));
         check(&mut rep, &mut drv, "path_starts_with", format!("prelude.path_starts_with {} {}", h, hex(base.as_bytes())), pp.starts_with(Path::new(&base)).to_string(), bdom);
+        rep.tag(if pp.starts_with(Path::new(&base)) { if p == base { "dist.path_starts_with.equal" } else { "dist.path_starts_with.strictly_below" } } else if p.starts_with(base.as_str()) { "dist.path_starts_with.textual_prefix_only" } else { "dist.path_starts_with.unrelated" });
         check(&mut rep, &mut drv, "str_starts_with", format!("prelude.str_starts_with {} {}", h, hex(base.as_bytes())), p.starts_with(base.as_str()).to_string(), true);
         check(&mut rep, &mut drv, "ends_with_slash", format!("prelude.ends_with_slash {}", h), p.ends_with('/').to_string(), true);
         // list vocabulary of unit EngineOrder: the STABLE sort by a boolean key (false first) and `partition`
